@@ -52,6 +52,11 @@ def gen_case(rng, tier, i):
     stops = ['first', 'interior', 'last', 'any']
     kw['stop'] = stops[int(rng.integers(4))]
     spec, info = L.gen_axial(rng, **kw)
+    if rng.random() < 0.08:
+        fm_ = max(f[0] for f in spec['fields'])
+        if fm_ > 0:      # field list dominated by a negative field: the maximum field is the largest |field|
+            spec['fields'] = [[-fm_, 0.0, 0.0], [0.0, 0.0, 0.0], [round(0.5 * fm_, 6), 0.0, 0.0]]
+            info['negfields'] = True
     return dict(kind='random', spec=spec, info=info)
 
 
@@ -92,7 +97,7 @@ def oracle_values(spec, dtype, asbuilt=()):
     o['mag'] = P.n[0] * ua[0] / (P.n[-1] * ua[-1])
     if 'mirror-unsigned-index' in asbuilt:
         o['mag'] = abs(P.n[0]) * ua[0] / (abs(P.n[-1]) * ua[-1])
-    fmax = max(f[0] for f in spec['fields'])
+    fmax = max(abs(f[0]) for f in spec['fields'])       # the full field is the largest |field|
     yb, ub, yobj, uobj = P.chief(spec['field_type'], fmax)
     o['yb'], o['ub'], o['ub0'] = yb, ub, uobj
     o['lagrange'] = P.lagrange(ya[1:], ua[1:], yb, ub)
@@ -115,6 +120,8 @@ def check_case(case, rec):
         spec, info = case['spec'], case['info']
         lens = L.build(spec)
         rec.cls(*L.class_names(info))
+        if info.get('negfields'):
+            rec.cls('negative-dominant-fields')
     o64, P = oracle_values(spec, np.float64)
     old, _ = oracle_values(spec, np.longdouble)
     powered = int(np.sum(np.abs(P.c[:-1] * (P.n[1:-1] - P.n[:-2])) > 0))
